@@ -9,12 +9,12 @@ import PyYetiVerif.Model.Op4Fixed
 
   cs i0 i1 …                      → `s:l s:l …`                       (`_sparse_col_stats`)
   pk irow L                       → `IS fits(0/1) irow' L'`             (pack / unpack)
-  enc <l|b> <n> mat…              → hex bytes | `struct_error`          (binary `write`)
+  enc <l|b> <n> mat…              → hex bytes | `struct_error`          (binary `write`: `encFileBytesFx`, the writer with `_split_strings`)
   asc <digits> <n> mat…           → hex of the text file                (ASCII `write`)
   dec <d|s|a> <hex>               → decoded matrices (see `showDec`)    (`load`)
   dir <hex>                       → `name,rows,cols,form,mtype|…`       (`dir`)
   fmt <digits> <bits>             → hex of `numform % x`
-  REPAIR CANDIDATES (Model/Op4Fixed.lean; used by corpus/c04_F2_candidate_check.py, corpus/c04_F3_candidate_check.py only):
+  (history: ops of the repair-candidate phase, kept as aliases for corpus/c04_F{2,3}_candidate_check.py; F2 / F3 are repaired in /repo)
   spl <maxlen> s:l s:l …          → `s:l s:l …`                       (`_split_strings`, F2 candidate)
   encfx <l|b> <n> mat…            → hex bytes | `struct_error`          (binary `write`, F2 candidate)
   fmtfx <digits> <bits>           → hex of `numform(x)`                 (F3 candidate)
@@ -354,7 +354,7 @@ def answer (line : String) : String :=
           | none => failure
         let n ← nat
         let ms ← repeatP matP n
-        match encFileBytes e ms with
+        match encFileBytesFx e ms with
         | some bs => pure (toHex bs)
         | none => pure "struct_error") ws
   | "asc" :: ws => run (do
@@ -496,7 +496,7 @@ def answer (line : String) : String :=
       | some d, some b => toHex ((fmtE d b).map Char.toNat)
       | _, _ => "bad-op"
   | ["fmtfx", d, b] => match d.toNat?, b.toNat? with
-      | some d, some b => toHex ((fmtEFx d b).map Char.toNat)
+      | some d, some b => toHex ((fmtE d b).map Char.toNat)
       | _, _ => "bad-op"
   | "spl" :: m :: ws => match m.toNat?, ws.mapM (fun w => match w.splitOn ":" with
         | [a, b] => match a.toNat?, b.toNat? with
@@ -518,7 +518,7 @@ def answer (line : String) : String :=
         let d ← nat
         let n ← nat
         let ms ← repeatP matP n
-        pure (toHex ((encFileAsciiFx d ms).map Char.toNat))) ws
+        pure (toHex ((encFileAscii d ms).map Char.toNat))) ws
   | _ => "bad-op"
 
 partial def loop (h : IO.FS.Stream) (out : IO.FS.Stream) : IO Unit := do
